@@ -15,7 +15,7 @@ CHECKS = {
     "C03": dict(
         engine="VSE",
         technique="bounded exhaustive enumeration of metamodel derivations, each structured by the real converter and the whole object graph walked against annotations and metamodel",
-        text="Every derivation (<=k deviations, both base points) of every root is structured; the returned object graph is walked attribute by attribute against the resolved attrs annotations and, in lock-step with the input, against the metamodel (at unions: instance of an alternative valid for the input; LSPAny positions unchanged).",
+        text="Every derivation (<=k deviations, both base points) of every root, plus every union site x alternative x shape (single-element and heterogeneous arrays), is structured; the returned object graph is walked attribute by attribute against the resolved attrs annotations and, in lock-step with the input, against the metamodel (at unions: instance of an alternative valid for the input; LSPAny positions unchanged); single closed-enum edits that make a value invalid are structured too: whatever structuring returns must be well-typed.",
         note="Trusted: MM, alphabets, compositionality; values that fail to structure belong to C01.",
         ref="3/C03"),
     "C14": dict(
@@ -33,7 +33,7 @@ CHECKS = {
     "C10": dict(
         engine="VSE",
         technique="exhaustive enumeration of (class, attribute, set/unset, surrounding value) over all generated classes, executed on constructors, unstructure and structure",
-        text="All attributes of all structure and envelope classes are toggled between unset and set while the surrounding object ranges over the cost<=1 neighbourhood and the maximal value; key presence / null / literal expectations come from MM, never from the generated special-property table; parse path with the property absent.",
+        text="All attributes of all structure, envelope and and-type classes are toggled between unset and set while the surrounding object ranges over the cost<=1 neighbourhood and the maximal value; key presence / null / literal expectations come from MM, never from the generated special-property table; parse path with the property absent; collision histories: every ordered pair of classes sharing attribute names but differing in what is always written, each in a freshly forked process.",
         note="Trusted: MM's syntactic reading of null-admitting (T|null), envelope rule (method, jsonrpc, result).",
         ref="3/C10"),
     "C11": dict(
@@ -45,7 +45,7 @@ CHECKS = {
     "C12": dict(
         engine="GRID",
         technique="exhaustive enumeration of (integer-typed property x boundary grid x entry point) and of validator calls over an argument alphabet",
-        text="All directly integer/uinteger-typed properties x boundary grid (thorough: +-1024 around each bound) x {constructor, converter}: accept iff in range, same verdict; validator functions over instance x attribute x value alphabets return True or raise ValueError naming class and attribute.",
+        text="All directly integer/uinteger-typed properties x boundary grid (thorough: +-1024 around each bound) x {constructor, converter}: accept iff in range, same verdict; validator functions over instance x attribute x value alphabets return True or raise ValueError naming class and attribute; call histories (an equal non-int first, then the int, and the reverse) at validators and entry points.",
         note="Decided on a grid, not on all ints.",
         ref="3/C12"),
     "C13": dict(
@@ -57,13 +57,13 @@ CHECKS = {
     "C15": dict(
         engine="VSE",
         technique="bounded exhaustive enumeration of derivations x protocol-object nodes x fresh property names x payloads, differential oracle against the unextended value",
-        text="Every derivation (k<=1/2 + maximal) x every protocol-object node x fresh names x payloads: structuring the extended value must succeed, equal the original result and re-serialise identically.",
+        text="Every derivation (k<=1/2 + maximal) and every union-site shape (single-element and heterogeneous arrays) x every protocol-object node x fresh names x payloads: structuring the extended value must succeed, equal the original result and re-serialise identically.",
         note="Names are declared nowhere in the metamodel; data positions (LSPAny, maps) excluded.",
         ref="3/C15"),
     "C20": dict(
         engine="GRID",
         technique="exhaustive enumeration of all pairs/triples of positions over a boundary grid, all ranges/locations built from them, all operators, against tuple comparison",
-        text="25 positions, 625 ordered pairs x 6 operators, trichotomy, transitivity on all triples, 25 ranges and 50 locations pairwise, unrelated and cross-class operands on both sides, reprs.",
+        text="25 positions, 625 ordered pairs x 6 operators, trichotomy, transitivity on all triples, 25 ranges and 50 locations pairwise, unrelated, look-alike and cross-class operands on both sides, reprs; compare - mutate - compare histories.",
         note="Decided on a 5-value grid per coordinate.",
         ref="3/C20"),
     "C04": dict(
@@ -81,19 +81,19 @@ CHECKS = {
     "C09": dict(
         engine="BISIM",
         technique="exhaustive enumeration of methods x table facets and of registry names, both directions, on the imported package",
-        text="95 methods x {entry, request/response class, params, registration options, default method, envelope annotations, constant, direction}; no extra keys; every protocol type object in ALL_TYPES_MAP under its own name and vice versa; all attrs fields resolved after first get_converter().",
+        text="95 methods x {entry, request/response class, params, registration options, default method, envelope id/jsonrpc/params/result annotations, constant, direction}; no extra keys; every protocol type object (incl. underscore names) in ALL_TYPES_MAP under its own name and vice versa, before and after the first get_converter(); all attrs fields resolved after it.",
         note="Class-name rule from the documentation (typeName else UpperCamel of method).",
         ref="3/C09"),
     "C16": dict(
         engine="HIST",
         technique="explicit-state breadth-first exploration of generator run histories (runs, stale files, fresh directories) with set-order and uuid seams, on the real entry point; plus real CLI processes per hash seed",
-        text="Per plugin all histories up to length 3 (dotnet/testdata quick: 2) over {Run(model A|B x set order x uuid stream), StaleOwned, StaleForeign, Fresh}; after every Run the owned files are byte-identical to the reference run, foreign files untouched, no injected uuid in the output; CLI runs under several PYTHONHASHSEEDs.",
+        text="Per plugin all histories up to length 3 (dotnet/testdata quick: 2) over {Run(model A | evolved model B x set order x uuid stream), StaleOwned (incl. generated names with other bytes), CorruptOwned, StaleForeign, Fresh}; after every Run the owned files are byte-identical to the reference run, foreign files untouched, no injected uuid in the output; CLI runs under several PYTHONHASHSEEDs, also for a two-file model list; cross-plugin histories (every ordered pair/triple of plugins in one process on one model path).",
         note="Assumes the generator reads only model files and its output/test directories; dotnet/testdata use small model slices in the quick tier.",
         ref="3/C16"),
     "C18": dict(
         engine="HIST",
         technique="exhaustive enumeration of single schema-valid additions (read-back), document lists up to length 3 (merge), single structural edits at every JSON node (equality) and single schema-violating edits per definition x rule x site x plugin (gate), all on the real loader and entry point",
-        text="(a) committed model + every (definition x optional property) addition and every kind of type expression read back losslessly; (b) all lists <=3 over 4 documents merged = concatenation; (c) every declaration x every single structural edit: equality verdicts, no raise; (d) every schema definition x rule kind x site class x 5 plugins: command fails, no plugin called, nothing written.",
+        text="(a) committed model + every (definition x optional property) addition and every kind of type expression read back losslessly; (b) all lists <=3 over 4 documents merged = concatenation, inputs not altered, repeated loads equal; (c) every declaration x every single structural edit, whole models differing only at a section end: equality verdicts, no raise; (d) every schema definition x rule kind x site class x 5 plugins, the violating document written to a path that held a valid model in the previous run: command fails, no plugin called, nothing written.",
         note="Structural = everything except annotation fields; plugins observed through recording wrappers on their public generate entry point.",
         ref="3/C18"),
     "C19": dict(
@@ -105,19 +105,19 @@ CHECKS = {
     "C17": dict(
         engine="BISIM",
         technique="exhaustive enumeration of every vector the plugin emits and of every (valid, value) pair of its generate functions per type expression, each judged by the strict reference validator and (True vectors) executed on the Python converter",
-        text="All files produced by the real generate() for the committed model: name pattern, hash, message class, label == strict MM validity, a True vector per message class, every True vector structured by the converter; plus every pair yielded by generate_for_type for every distinct type expression (reaches label decisions that never make it into a file).",
+        text="All files produced by the real generate() for the committed model: name pattern, hash, message class, label == strict MM validity, a True vector per message class, every True vector structured by the converter; plus every pair yielded by generate_for_type for every distinct type expression (reaches label decisions that never make it into a file); plus all vectors of a second generate() in the same interpreter on an evolved model slice.",
         note="Strict reading; property-less objects are open; responses may carry result and error; metamodel openness of enums.",
         ref="3/C17"),
     "C07": dict(
         engine="BISIM",
         technique="exhaustive product-graph walk metamodel x parsed lib.rs (every struct, field, enum value, alias variant, method), both directions, on the plugin's output and the committed file",
-        text="Every structure (serde field-name set, mapped type, Option, proposed gate), every enumeration (serde discriminants as multiset; Serialize/Deserialize arms of integer enums), every or-alias (untagged enum variants), every method (message structs, method-enum rename), and every item of the file in the reverse direction.",
+        text="Every structure (serde field-name set, mapped type, Option, proposed gate), every enumeration (serde discriminants as multiset; Serialize/Deserialize arms of integer enums), every or-alias (untagged enum variants), every method (message structs, method-enum rename); on the plugin output for the committed model, on the committed lib.rs, and on a second generation in the same interpreter for an evolved model.",
         note="Own token-level parser for the emitted Rust subset (cross-checked by item counts and rustfmt acceptance); the crate cannot be compiled offline.",
         ref="3/C07"),
     "C08": dict(
         engine="BISIM",
         technique="exhaustive product-graph walk metamodel x parsed .cs files of the dotnet plugin's output (every record, data member, enum value, message class attribute)",
-        text="Every structure (data member set, mapped C# type, nullable, null-ignoring, JSON-constructor assignment), every enumeration, every method (LSPRequest method string and pairing, LSPResponse pairing, LSPMethods catalogue, Direction of request and notification classes, envelope member types).",
+        text="Every structure (data member set, mapped C# type, nullable, null-ignoring, JSON-constructor assignment), every enumeration, every method (LSPRequest method string and pairing, LSPResponse pairing, LSPMethods catalogue, Direction of request and notification classes, envelope member types); also on a second generation in the same interpreter for an evolved model.",
         note="Own parser for the emitted C# subset; no .NET toolchain exists in the image, so the text is checked as the property says.",
         ref="3/C08"),
     "C06": dict(
